@@ -396,18 +396,75 @@ impl C07 {
     }
 }
 
+// ---------------------------------------------------------------------------------------
+// Macro regions: the body of a `.macro` is skipped with one error (macros are not supported);
+// what follows the end of the region - in either spelling of the end directive, the
+// assembler's `.end_macro` and the short `.endmacro` - must not disappear with it.
+
+pub const MACRO_CASES: u64 = 2 * 3 * 2;
+
+/// (source, 0-based lines that lie behind the macro region and carry a statement)
+pub fn macro_case(i: u64) -> (String, Vec<usize>) {
+    let end = [".endmacro", ".end_macro"][(i % 2) as usize];
+    let body_len = ((i / 2) % 3) as usize;
+    let crlf = (i / 6) % 2 == 1;
+    let mut lines: Vec<String> = vec!["main:".into(), "    .macro inc".into()];
+    for k in 0..body_len {
+        lines.push(format!("    addi t{k}, t{k}, 1"));
+    }
+    lines.push(format!("    {end}"));
+    let first_after = lines.len();
+    lines.extend(["    addi a0, a0, 1", "    frobnicate t0", "    li a7, 10", "    ecall"].map(String::from));
+    let nl = if crlf { "\r\n" } else { "\n" };
+    (lines.iter().map(|l| format!("{l}{nl}")).collect(), (first_after..first_after + 4).collect())
+}
+
+impl C07 {
+    fn run_macro_case(case: u64, i: u64, acc: &mut Acc) {
+        let (src, after) = macro_case(i);
+        acc.count("macro_cases", 1);
+        let Ok((_, nodes, errs)) = std::panic::catch_unwind(|| imp::parse(imp::MemReader::single(&src), "base.s")) else {
+            acc.count("panicked", 1);
+            return;
+        };
+        acc.count("traces", 1);
+        let loc = Locator::new(&src);
+        let covered = |line: usize| {
+            nodes.iter().skip(1).any(|n| loc.line_of(n.range().start().raw_index()) == line)
+                || errs.iter().any(|e| loc.line_of(e.range().start().raw_index()) == line)
+        };
+        for l in &after {
+            if !covered(*l) {
+                let spelling = if i % 2 == 0 { "endmacro" } else { "end_macro" };
+                acc.violation(
+                    format!("C07|silent-drop|behind-a-macro-region|{spelling}"),
+                    case,
+                    json!({"case": case, "macro_case": i, "source": src, "dropped_line": l + 1, "what": "a line behind the end of a macro region is neither a node nor an error"}),
+                );
+                return;
+            }
+        }
+        acc.outcome("macro-region-contained", case);
+    }
+}
+
 impl Property for C07 {
     fn id(&self) -> &'static str {
         "C07"
     }
     fn cases(&self, tier: Tier) -> u64 {
-        self.space(tier).count() * Self::VARIANTS
+        self.space(tier).count() * Self::VARIANTS + MACRO_CASES
     }
     fn chunk(&self, _tier: Tier) -> u64 {
         8000
     }
     fn run_case(&self, tier: Tier, case: u64, acc: &mut Acc) {
         acc.count("cases", 1);
+        let enumerated = self.space(tier).count() * Self::VARIANTS;
+        if case >= enumerated {
+            Self::run_macro_case(case, case - enumerated, acc);
+            return;
+        }
         let fc = self.case(tier, case);
         if case % 5003 == 0 {
             let lines: Vec<(usize, LineKind)> = fc.kinds.iter().copied().enumerate().collect();
@@ -416,11 +473,19 @@ impl Property for C07 {
         self.run_file(case, &fc, acc);
     }
     fn show(&self, tier: Tier, case: u64) -> String {
+        let enumerated = self.space(tier).count() * Self::VARIANTS;
+        if case >= enumerated {
+            return macro_case(case - enumerated).0;
+        }
         let fc = self.case(tier, case);
         let lines: Vec<(usize, LineKind)> = fc.kinds.iter().copied().enumerate().collect();
         format!("{:?}\n{:?}", fc, Self::files(&fc, &lines).0)
     }
     fn replay(&self, w: &Value, acc: &mut Acc) {
+        if let Some(m) = w["macro_case"].as_u64() {
+            Self::run_macro_case(w["case"].as_u64().unwrap_or(0), m, acc);
+            return;
+        }
         if let Some(case) = w["case"].as_u64() {
             for tier in [Tier::Quick, Tier::Thorough] {
                 if case < self.cases(tier) {
